@@ -28,7 +28,8 @@ def build(tier, seed):
     for i, s in enumerate(sig_bpsk):
         scale = -2.0 / (s * s)   # IEEE double, same operations as BpskDemodulator::new
         hn = "c14_bpsk_s%d" % i
-        items.append((Harness(hn, {"sigma": s, "input": "two samples, every finite f64; one bit", "oracle": "LLR bit-identical to (-2/sigma^2)*r; mapping 0->-1, 1->+1; noiseless hard decision returns the bit"}, 1.0),
+        items.append((Harness(hn, {"sigma": s, "input": "one sample over every finite f64 (sign/zero/NaN behaviour); the sample 1.0 (pins the scale bit-for-bit); samples k*2^-e, k in i8, e in {0,3,30} (bit-identical product); one bit",
+                                    "oracle": "LLR = (-2/sigma^2)*r; mapping 0->-1, 1->+1; noiseless hard decision returns the bit"}, 1.0),
                       "crate::c14_bpsk!(%s, %s, 0x%016x);" % (hn, fl(s), bits64(scale))))
     items.append((Harness("c14_psk8_mod", {"input": "all 6-bit sequences (two symbols), all octant pairs", "oracle": "EN 302 307-1 Gray table (pinned), first bit = MSB, unit energy within 4 eps, angular neighbours differ in one bit"}, 2.0),
                   "crate::c14_psk8_mod!(c14_psk8_mod);"))
@@ -42,6 +43,7 @@ def build(tier, seed):
                       "Psk8Demodulator::{new, from_noise_sigma, demodulate, demodulate_symbol}", "modulation::{dot, maxstar}"],
         "bounds": {"bpsk_sigma_grid": sig_bpsk, "psk8_sigma_grid": sig_psk, "psk8_perturbation_inf_norm": eps},
         "outside": ["symbolic sigma (one symbolic f64 division does not finish, probe P21): sigma ranges over a concrete grid",
+                    "BPSK: bit-identity of the product is decided on the sample 1.0 and the small exact domain; for arbitrary finite samples only sign / zero / no-NaN (two full-width f64 products compared are a multiplier miter that does not finish)",
                     "the LLR *values* of the 8PSK demapper (max* = transcendental): only their signs near constellation points, for sigma <= 0.3, are decided",
                     "8PSK samples further than the perturbation bound from a constellation point"],
         "stubs": ["CONTRACT (8PSK demodulator harnesses: exp on (-inf,0] in [0,1], ln_1p on [0,1] in [0, min(z, 0.6932)])"],
